@@ -177,8 +177,8 @@ def run(tier):
                 stats["nospec"] += 1
         elif v[1] == "1":
             stats["denotes"] += 1
-        elif v[1] == "NOSPEC":
-            stats["nospec"] += 1
+        elif v[1] in ("NOSPEC", "TIMEOUT"):
+            stats["nospec" if v[1] == "NOSPEC" else "undecided_timeout"] = stats.get("nospec" if v[1] == "NOSPEC" else "undecided_timeout", 0) + 1
         else:
             report.fail({"site": "assembly", "kind": "wrong-molecule" if v[1] == "0" else v[1]},
                         {"glycan": txt, "observed": o["smiles"], "residues": {n: single[n] for n in need},
